@@ -154,6 +154,15 @@ def make_stray(r, view, svcs, ids):
     choice = r.random()
     svc = r.choice(svcs)
     tag = None
+    waiting = [(cid, st) for cid, st in sorted(view.open.items()) if st["tag"] and st["awaiting"]]
+    if choice < 0.12 and waiting:
+        # a tag that differs from a live, awaited one only at its end: one hex digit less (the serial of an earlier holder of the
+        # id whose text is a prefix of the newcomer's, once serials have two digits) or one digit more
+        cid, st = r.choice(waiting)
+        t = st["tag"]
+        tag = t[:-1] if (r.random() < 0.6 and not t[:-1].endswith("_")) else t + r.choice("0123456789abcdef")
+        svc = r.choice(sorted(st["awaiting"]))
+        choice = 1.0
     if choice < 0.4 and view.old_tags:
         cid, tag, tsv = r.choice(view.old_tags[-50:])
         if tsv and r.random() < 0.8:
